@@ -45,7 +45,10 @@ fn brute_subsets(free: u64, k: usize) -> Vec<u64> {
             out.push(acc);
             return;
         }
-        for i in from..cards.len() {
+        if cards.len() < from + k {
+            return; // not enough cards left
+        }
+        for i in from..=cards.len() - k {
             rec(cards, k - 1, i + 1, acc | 1u64 << cards[i], out);
         }
     }
@@ -123,7 +126,10 @@ fn brute_orbit_count(k: usize) -> u64 {
                             }
                             return;
                         }
-                        for i in from..cards.len() {
+                        if cards.len() < from + k {
+                            return;
+                        }
+                        for i in from..=cards.len() - k {
                             rec(cards, k - 1, i + 1, acc | 1u64 << cards[i], pocket, perms, n);
                         }
                     }
@@ -497,10 +503,14 @@ fn main() {
         let alt = (0..f).fold(0u64, |acc, i| acc | 1u64 << (51 - 2 * i as u64).min(51));
         masks.push(all52 & !alt);
     }
+    {
+        let mut seen = HashSet::new();
+        masks.retain(|m| seen.insert(*m));
+    }
     // The iterator walks through every k-bit pattern below 2^52 whatever the mask is, so one case
     // costs about C(52,k) steps on both sides: every mask gets k = 0..=4, and k = 5, 6, 7 are
     // given to a spread of masks sized by the tier.
-    let (n5, n6, n7) = if thorough { (masks.len(), 80, 24) } else { (20, 4, 1) };
+    let (n5, n6, n7) = if thorough { (masks.len(), 80, 24) } else { (12, 3, 1) };
     let pick = |n: usize, total: usize| -> Vec<usize> { (0..n.min(total)).map(|i| total - 1 - i * total / n.min(total).max(1)).collect() };
     let (p5, p6, p7) = (pick(n5, masks.len()), pick(n6, masks.len()), pick(n7, masks.len()));
     for (i, &m) in masks.iter().enumerate() {
@@ -513,7 +523,7 @@ fn main() {
     }
     // ---- 2. sparser masks: counts + order checksums (+ brute force while it is small)
     let ncases = if thorough { 400 } else { 120 };
-    let (mut left6, mut left7) = if thorough { (40, 12) } else { (2, 0) };
+    let (mut left6, mut left7) = if thorough { (40, 12) } else { (1, 0) };
     for i in 0..ncases {
         let f = 13 + rng.below(40) as usize; // 13..=52 free cards
         let mut k = rng.below(8) as usize;
@@ -523,7 +533,7 @@ fn main() {
         hands_case(&mut run, k, all52 & !free, false);
     }
     // no mask at all
-    for k in 0..=(if thorough { 7usize } else { 6 }) {
+    for k in 0..=(if thorough { 7usize } else { 5 }) {
         hands_case(&mut run, k, 0, false);
     }
     // hand sizes beyond the property's 0..=7 whose walk is short: the initial pattern 2^k - 1 sits
